@@ -30,7 +30,7 @@ func refWindow(lines []string, off, lim int) []string {
 }
 
 func c18E2(tier string, o *E2Out) {
-	o.Rule = "E2: (a) log buffer sizes {0,1,3}, every write count 0..size+2*slack+3: after each write the buffer holds the most recent lines in order, at least min(written,size), at most size+slack; (b) every (offset,limit) in [-2,len+2]^2 for every log length <= maxLen: GetLogRange equals the reference window and never panics. A case is non-trivial when the log is non-empty."
+	o.Rule = "E2: (a) log buffer sizes {0,1,3}, every write count 0..size+2*slack+3: after each write the buffer holds the most recent lines in order, at least min(written,size), at most size+slack, and no window handed out earlier changes its content; (b) every (offset,limit) in [-2,len+2]^2 for every log length <= maxLen: GetLogRange equals the reference window and never panics. A case is non-trivial when the log is non-empty."
 	o.Exhaustive = true
 	idx := 0
 	// (a) window
@@ -41,11 +41,25 @@ func c18E2(tier string, o *E2Out) {
 		}
 		b := pclog.NewLogBuffer(size)
 		var written []string
+		// windows handed out earlier (and what they held then): later writes must not change them
+		type handed struct {
+			at   int
+			win  []string
+			copy string
+		}
+		var kept []handed
 		for i := 0; i <= size+2*c18Slack+3; i++ {
 			if i > 0 {
 				l := fmt.Sprintf("l%d", i)
 				b.Write(l)
 				written = append(written, l)
+				for _, h := range kept {
+					if strings.Join(h.win, ",") != h.copy {
+						o.violation("C18", "window:changed-after-return", fmt.Sprintf("size %d: the window returned after %d writes changed its content after %d writes", size, h.at, i), map[string]int{"size": size, "taken": h.at, "written": i})
+						kept = nil
+						break
+					}
+				}
 			}
 			o.Evaluations++
 			n := b.GetLogLength()
@@ -56,6 +70,7 @@ func c18E2(tier string, o *E2Out) {
 			}
 			if i > 0 {
 				o.Distinct++
+				kept = append(kept, handed{at: i, win: got, copy: strings.Join(got, ",")})
 			}
 			min := size
 			if len(written) < min {
